@@ -121,6 +121,10 @@ def check(case):
                             continue
                         got = list(r.tierNames)
                         msg = None
+                        st2, r2, _ = call(_tgmod.openTextgrid, fn, incl, "silence", "rename")
+                        n += 1
+                        if st2 == "exc" or list(r2.tierNames) != got or not (r2 == r):
+                            msg = f"opening the same file a second time gives different tiers: {got} then {list(r2.tierNames) if st2 == 'ok' else r2!r}"
                         if len(got) != len(names):
                             msg = f"{len(got)} tiers, file has {len(names)}"
                         elif len(set(got)) != len(got):
@@ -150,6 +154,11 @@ def check(case):
                         oc.append("X")
                         continue
                     msg = same(observe(r), expect(data, incl, layout))
+                    if msg is None and enc == "utf-8" and nl == "\n":
+                        st2, r2, _ = call(_tgmod.openTextgrid, fn, incl, "silence")
+                        n += 1
+                        if st2 == "exc" or observe(r2) != observe(r):
+                            msg = "opening the same file a second time gives a different textgrid"
                     if msg is None:
                         for t in r.tiers:
                             w = wellformed(t)
